@@ -15,6 +15,12 @@ from core import Record, bits_equal
 def build(c):
     prob = comp_gen.make_problem(c)
     u = c.get("user_ops")
+    if u == "registered-repair" and c["algo"] in ("de", "nsde", "gde3", "gde3mnn", "gde32nn", "gde3p"):
+        # a repair registered under a name of the session's own in the (public) registry of dem.py, asked for by name
+        import userops
+        from pymoode.operators import dem as _dem
+        _dem.REPAIRS["verif-session-repair"] = userops.user_repair
+        c = dict(c, repair="verif-session-repair")
     if u == "repair-object" and c["algo"] in ("de", "nsde", "gde3", "gde3mnn", "gde32nn", "gde3p"):
         # the documented way: a callable handed to the constructor (here an object with state)
         import userops
@@ -77,6 +83,20 @@ def trace_asktell(c, order_seed=None, history=False, callback=None):
             for i in orng.permutation(len(infills)):
                 Evaluator().eval(prob, Population.create(infills[int(i)]))
         algo.tell(infills=infills)
+        out.append(snap(algo))
+    return out
+
+
+def trace_ctor_seed(c, s):
+    """the seed is given to the algorithm's constructor and the run is started without one"""
+    c2 = dict(c, ctor_seed=int(s))
+    if c2["algo"] not in ("de", "nsde", "gde3", "nsder"):
+        c2["algo"] = "nsde" if c2["n_obj"] > 1 else "de"
+    prob, algo = build(c2)
+    algo.setup(prob, termination=("n_gen", c["n_gen"]), verbose=False)
+    out = []
+    while algo.has_next():
+        algo.next()
         out.append(snap(algo))
     return out
 
@@ -172,7 +192,7 @@ def workload(c, rng):
 
 
 VARIANTS = ["repeat", "fresh-process", "minimize", "external-order", "next-vs-asktell", "fresh-process", "interleaved", "history",
-            "default-termination", "reuse-object", "param-schedule"]
+            "default-termination", "reuse-object", "param-schedule", "ctor-seed"]
 
 
 class Repro:
@@ -203,12 +223,17 @@ class Repro:
         try:
             # (the fresh-process variant must not run the case itself before the unrelated workload: that would
             # initialise every size-keyed cache with this run's own values)
-            base = trace_asktell(c) if v not in ("default-termination", "fresh-process", "param-schedule") else None
+            base = trace_asktell(c) if v not in ("default-termination", "fresh-process", "param-schedule", "ctor-seed") else None
             if v == "default-termination":
                 # first a run driven on the object itself to the end of its default termination, then
                 # the same configuration on a fresh object through minimize()
                 base = trace_default_termination(c, "asktell")
                 other = trace_default_termination(c, "minimize")
+            elif v == "ctor-seed":
+                s_ = [0, 0, 1, 12345][c["vseed"] % 4]
+                base = trace_ctor_seed(c, s_)
+                workload(c, rng)
+                other = trace_ctor_seed(c, s_)
             elif v == "reuse-object":
                 other = trace_reuse(c)
             elif v == "param-schedule":
@@ -323,7 +348,7 @@ class Resume:
             c = dict(c)
             c["prior"] = False
             c["special"] = None
-            c["user_ops"] = [None, "mutation", "repair", "crowding", "repair-object"][rng.randint(5)] if c["algo"] not in ("ga", "ea-dex") else None
+            c["user_ops"] = [None, "mutation", "repair", "crowding", "repair-object", "registered-repair"][rng.randint(6)] if c["algo"] not in ("ga", "ea-dex") else None
             c["method"] = Resume.METHODS[t % 3]
             c["history"] = bool(rng.randint(3) == 0)
             if t % 30 == 7 and c["algo"] not in ("ga", "ea-dex", "nsder"):
@@ -375,6 +400,11 @@ class Resume:
                 rec.tags.add("long-run")
                 saves.append((len(base), None, None))       # sentinel (the last entry is never resumed)
             bad = []
+            if c.get("user_ops") == "registered-repair":
+                # between checkpoint and resume the session re-uses the name for something else
+                from pymoode.operators import dem as _dem
+                if "verif-session-repair" in _dem.REPAIRS:
+                    _dem.REPAIRS["verif-session-repair"] = _dem.REPAIRS["to-bounds"]
             for k, blob, st in saves[:-1]:
                 a2 = load(blob)
                 s0 = snap(a2)
@@ -414,6 +444,11 @@ class Resume:
         except Exception as e:
             import traceback
             rec.err = "%s: %s | %s" % (type(e).__name__, e, traceback.format_exc()[-500:])
+        try:
+            from pymoode.operators import dem as _dem
+            _dem.REPAIRS.pop("verif-session-repair", None)
+        except Exception:
+            pass
         rec.tags.add("method:" + c["method"])
         rec.tags.add("algo:" + c["algo"])
         if c.get("user_ops"):
